@@ -209,7 +209,7 @@ sys.exit(bad)
            f'while the destination was open write() entered {sorted(set(state["bad"]))[:6]} (err={err})', replay=REPLAY_WRITE, backend='call-trace of the real body')
 
     # ---- open() call sites
-    sites = static_open_sites('/repo')
+    sites = static_open_sites(os.environ.get('VERIF_REPO', '/repo'))
     for rel, line, mode, enc, dynamic in sites:
         ok = (not dynamic) and (enc or (mode is not None and 'b' in mode))
         src = f"import subprocess\ncode = 'import sys; sys.path.insert(0, %r); import musicxml.xmlelement.xmlelement' % os.environ.get('MUSICXML_ROOT', '/repo')\nenv = dict(os.environ, LC_ALL='C', LANG='C', PYTHONUTF8='0', PYTHONCOERCECLOCALE='0'); env.pop('PYTHONIOENCODING', None)\nr = subprocess.run([sys.executable, '-W', 'ignore', '-c', code], env=env, capture_output=True, text=True)\nprint('import under LC_ALL=C rc', r.returncode, r.stderr[-300:])\nprint({rel!r}, {line}, 'open() mode', {mode!r}, 'encoding given:', {enc})\nsys.exit(1)\n"
